@@ -1291,7 +1291,8 @@ fn run_sockopt(real: &mut Real, which: u8, value: u32, tcp: bool, classes: &mut 
         5 => set_then_read_u32!(option::RecvLowWater, libc::SOL_SOCKET, libc::SO_RCVLOWAT, "SO_RCVLOWAT", small),
         6 => {
             // Linger: Option<u32>.
-            let v = if on { Some(small) } else { None };
+            // Some(0) is a value of its own: abortive close (l_onoff 1, l_linger 0).
+            let v = if on { Some(value / 2 % 4) } else { None };
             real.block_on(s.set_socket_option::<option::Linger>(v))?.map_err(|e| format!("failure-vs-success:set SO_LINGER: {e}"))?;
             let mut l: libc::linger = unsafe { std::mem::zeroed() };
             let mut len = size_of::<libc::linger>() as u32;
